@@ -1295,8 +1295,16 @@ class DocutilsRenderer(RendererProtocol):
         if isinstance(token.content, str):
             try:
                 data = yaml.safe_load(token.content)
-            except (yaml.YAMLError, ValueError, RecursionError):
+            except (
+                yaml.YAMLError,
+                ValueError,
+                LookupError,
+                AttributeError,
+                RecursionError,
+            ):
                 # RecursionError: collections nested deeper than the recursion limit
+                # LookupError, AttributeError: PyYAML's constructors for tagged scalars,
+                # e.g. ``!!bool maybe``, ``!!int ''``, ``!!timestamp today``
                 self.create_warning(
                     "Malformed YAML",
                     MystWarnings.MD_TOPMATTER,
